@@ -27,6 +27,16 @@ the product of two ADJACENT cores inside (1e-100, 2^1000): the algorithm forms t
 and core_stab leaves values below its threshold 1e-100 unscaled.  What happens outside that band is isolated in
 `C04.orthogonalize.stab_extreme_cores` (per-core 2^-170 / 2^-450 / 2^-600 / 2^+520 / 2^+600 / alternating 2^+-600), which states the property as
 written ("huge and tiny scales": input = 2^p Z, moderate entries).
+
+Parameter / regime coverage added by the audit of the signatures:
+* `C04.orthogonalize.many_modes`  d = 30 .. 90 (thorough 130), pivots 0 / 1 / middle / d-2 / d-1 / None, both stab
+  settings; reference distance and norm from the cores alone (own block difference + QR sweep); inputs in canonical
+  form (rigorous c d eps ||Y|| bound) and plain Gaussian; per-core factors 2^e random in [-40, 40] or all 2^+-40
+  (|p| up to 5200 with use_stab).
+* single steps (`C04.step.contract`, param `exps`) at per-core factors 2^+-100, 2^+-300 alternating, 2^-250/2^250/1 -
+  the step variants were exercised at unit scale only; both in-place settings.
+* mode sizes 300 .. 1025 (thorough 2048) in all orthogonalize / step clauses.
+* pivots given as numpy.int64 / numpy.int32 (accepted with the same result; out-of-range ones rejected).
 """
 import math
 import numpy as np
@@ -38,7 +48,8 @@ from rtc import gen
 BUDGET = (50, 500)
 BOUNDS = ('d in {2,3,4} (thorough up to 6), modes 1..4, ranks 1..4 (thorough 6) incl. over-ranked, 4 defect kinds, '
           'orders C/F/V, EVERY pivot, stab on/off, exponent patterns 0 / +-100 / +300 / -150 / alternating per core (stab); extreme per-core scales in a separate clause, every step '
-          'index of the single-step variants x inplace on/off')
+          'index of the single-step variants x inplace on/off (also at per-core 2^+-100 / 2^+-300); d = 30..90 (thorough 130) with '
+          'own QR oracles and |p| up to 5200; mode sizes up to 1025 (thorough 2048); numpy integer pivots')
 
 EPS = np.finfo(float).eps
 DEFECTS = ('none', 'dup', 'zerocore', 'zeroslice')
@@ -256,19 +267,148 @@ def orth_raises(n, r, seed, stab):
     c = c[0] if stab else c
     if any(not np.array_equal(u, v) for u, v in zip(a, c)):
         return FAIL('default pivot differs from k=d-1')
-    for k in range(d):     # every in-range pivot is accepted
-        teneva.orthogonalize(Y, k, use_stab=stab)
+    for k in range(d):     # every in-range pivot is accepted, as Python int and as numpy integer, with the same result
+        u = teneva.orthogonalize(Y, k, use_stab=stab)
+        for kk in (np.int64(k), np.int32(k)):
+            v = teneva.orthogonalize(Y, kk, use_stab=stab)
+            uu, vv = (u[0], v[0]) if stab else (u, v)
+            if (stab and u[1] != v[1]) or len(uu) != len(vv) or any(not np.array_equal(a_, b_) for a_, b_ in zip(uu, vv)):
+                return FAIL(f'pivot {k} given as {type(kk).__name__} gives another result than the Python int')
+    for k in (np.int64(-1), np.int64(d)):
+        try:
+            teneva.orthogonalize(Y, k, use_stab=stab)
+            return FAIL(f'numpy pivot {k} accepted for d = {d}')
+        except ValueError:
+            pass
+    return PASS
+
+
+# ----------------------------------------------------------------------------- many modes (no dense array)
+
+def _own_left(Y):
+    """Own left-to-right QR sweep (NumPy only): the same tensor with cores 0..d-2 orthonormal."""
+    Z = [np.array(G, dtype=float) for G in Y]
+    for k in range(len(Z) - 1):
+        r1, m, r2 = Z[k].shape
+        Q, R = np.linalg.qr(Z[k].reshape(r1 * m, r2))
+        Z[k] = Q.reshape(r1, m, Q.shape[1])
+        Z[k + 1] = np.einsum('ab,bmc->amc', R, Z[k + 1])
+    return Z
+
+
+def _own_distance(Y, Z):
+    """||Y - Z||_F through the block TT of the difference and an own QR sweep."""
+    d = len(Y)
+    W = []
+    for k, (G, H) in enumerate(zip(Y, Z)):
+        if k == 0:
+            W.append(np.concatenate([G, -H], axis=2))
+        elif k == d - 1:
+            W.append(np.concatenate([G, H], axis=0))
+        else:
+            T = np.zeros((G.shape[0] + H.shape[0], G.shape[1], G.shape[2] + H.shape[2]))
+            T[:G.shape[0], :, :G.shape[2]] = G
+            T[G.shape[0]:, :, G.shape[2]:] = H
+            W.append(T)
+    return float(np.linalg.norm(_own_left(W)[-1]))
+
+
+def _many_input(d, nk, r, seed, kind):
+    """Unscaled cores.  'canon': canonical form around a random mode (cores left of it with orthonormal columns,
+    right of it with orthonormal rows, Gaussian weight core) - every step of any re-orthogonalisation is then an
+    orthogonal transformation and the error bound c d eps ||Y|| is rigorous; 'gauss': plain Gaussian cores."""
+    g = gen.rng('C04.many', d, nk, r, seed, kind)
+    rk = [1] + [min(r, nk ** min(k, d - k)) for k in range(1, d)] + [1]
+    Y = [g.normal(size=(rk[k], nk, rk[k + 1])) for k in range(d)]
+    if kind == 'canon':
+        m = int(g.integers(0, d))
+        for k in range(d):
+            r1, n1, r2 = Y[k].shape
+            if k < m:
+                Q, _ = np.linalg.qr(Y[k].reshape(r1 * n1, r2))
+                Y[k] = Q.reshape(r1, n1, r2)
+            elif k > m:
+                Q, _ = np.linalg.qr(Y[k].reshape(r1, n1 * r2).T)
+                Y[k] = Q.T.reshape(r1, n1, r2)
+    return Y
+
+
+@clause('C04.orthogonalize.many_modes', funcs=OF + ('core.core_stab',))
+def orth_many_modes(d, nk, r, seed, kind, k, stab, emax, epat='rand'):
+    """d = 30 .. 90 modes (no dense array exists): same tensor (own block-difference + QR distance), orthonormal cores
+    around the pivot, pivot core carrying the norm, ranks not increased; with use_stab the pair (Z, p) with integer p,
+    |entries| <= 2 and pivot max-modulus in [1, 2).  Per-core factors 2^e with |e| <= emax, so that the total scale
+    leaves the double range for emax >= 16 (then only with use_stab); epat 'up' / 'down' gives every core the same
+    factor 2^+emax / 2^-emax (|p| up to 5200)."""
+    Y0 = _many_input(d, nk, r, seed, kind)
+    g = gen.rng('C04.many.exp', d, seed, emax)
+    ex = [int(x) for x in g.integers(-emax, emax + 1, size=d)] if emax else [0] * d
+    if epat != 'rand':                      # every core 2^+emax / 2^-emax: |total exponent| = d emax (up to 5200)
+        ex = [emax if epat == 'up' else -emax] * d
+    S = sum(ex)
+    Y = [np.ldexp(G, e) if e else G for G, e in zip(Y0, ex)]
+    snap = gen.snapshot(Y)
+    out = teneva.orthogonalize(Y, k, use_stab=stab)
+    if gen.snapshot(Y) != snap:
+        return FAIL('input changed')
+    if stab:
+        if not isinstance(out, tuple) or len(out) != 2:
+            return FAIL('use_stab=True does not return a pair')
+        Z, p = out
+        if isinstance(p, bool) or not isinstance(p, (int, np.integer)):
+            return FAIL(f'exponent {p!r} is not an integer')
+    else:
+        Z, p = out, 0
+    n = [nk] * d
+    msg = gen.wf(Z, n)
+    if msg:
+        return FAIL('result not well-formed: ' + msg)
+    if not gen.finite(Z):
+        return FAIL('non-finite cores')
+    if gen.shares(Z, Y):
+        return FAIL('result shares memory with the input')
+    kk = d - 1 if k is None else k
+    rin, rk = [1] + [G.shape[2] for G in Y], [1] + [G.shape[2] for G in Z]
+    for j in range(1, d):
+        if rk[j] > rin[j] or (j <= kk and rk[j] > rk[j - 1] * nk) or (j > kk and rk[j] > nk * rk[j + 1]):
+            return FAIL(f'bond {j}: rank {rk[j]} (input {rin[j]}, pivot {kk})')
+    for j in range(d):
+        if j == kk:
+            continue
+        G = Z[j]
+        M = _gram_left(G) if j < kk else _gram_right(G)
+        dev = float(np.abs(M - np.eye(M.shape[0])).max())
+        if not dev <= 64 * EPS * max(G.shape[0] * G.shape[1], G.shape[1] * G.shape[2]):
+            return FAIL(f'core {j} ({"left" if j < kk else "right"} of pivot {kk}): Gram deviates from I by {dev:.3e}')
+    nrm = float(np.linalg.norm(_own_left(Y0)[-1]))
+    rel = 256.0 * d * r * EPS if kind == 'canon' else 1e-9
+    W = list(Z)
+    W[kk] = np.ldexp(Z[kk], int(p) - S)                      # Z 2^p / 2^S: comparable with the unscaled tensor
+    if not gen.finite(W):
+        return FAIL(f'pivot core not finite after rescaling by 2^(p - S) = 2^{int(p) - S}')
+    err = _own_distance(Y0, W)
+    if not err <= rel * nrm:
+        return FAIL(f'||2^p Z - Y|| = {err:.3e} > {rel * nrm:.3e} (||Y|| = {nrm:.3e}, d = {d}, pivot {kk}, p = {p}, S = {S})')
+    got = float(np.linalg.norm(W[kk]))
+    if not abs(got - nrm) <= rel * nrm:
+        return FAIL(f'2^p ||Z[{kk}]|| = {got!r}, ||Y|| = {nrm!r}')
+    if stab:
+        mx = [float(np.abs(G).max()) for G in Z]
+        if not all(x <= 2.0 for x in mx):
+            return FAIL(f'use_stab: entries up to {max(mx):.3e}')
+        if not (1.0 <= mx[kk] < 2.0):
+            return FAIL(f'use_stab: pivot core max-modulus {mx[kk]!r} not in [1, 2)')
     return PASS
 
 
 # ----------------------------------------------------------------------------- single steps
 
 @clause('C04.step.contract', funcs=('transformation.orthogonalize_left', 'transformation.orthogonalize_right'))
-def step_contract(n, r, seed, kind, order, defect, side, i, inplace):
+def step_contract(n, r, seed, kind, order, defect, side, i, inplace, exps=None):
     """One left / right step at mode i: same tensor, core i orthonormal, new rank = min(rows, old rank) <= old rank,
     only the two adjacent cores differ; inplace=True: same list object with exactly those two elements replaced;
     inplace=False: input untouched, nothing shared."""
-    Y, Y0, S = make(n, r, seed, kind, order, defect, None)
+    Y, Y0, S = make(n, r, seed, kind, order, defect, exps)     # exps: per-core factors 2^e (huge / tiny scales)
     d = len(n)
     fn = teneva.orthogonalize_left if side == 'left' else teneva.orthogonalize_right
     j = i + 1 if side == 'left' else i - 1            # the neighbour receiving the weight
@@ -403,6 +543,44 @@ def cases(tier, seed):
         for exps in ([-450], [-600], [600], [520], [-170], [600, -600]):
             for k in (0, len(n) - 1):
                 yield 'C04.orthogonalize.stab_extreme_cores', dict(n=n, r=[1] + [2] * (len(n) - 1) + [1], seed=1, exps=exps, k=k)
+    # single steps at huge / tiny per-core scales (the single-step variants have no stabilisation: products stay in range)
+    for j2, n in enumerate(shapes):
+        d = len(n)
+        if not big and j2 % 2:
+            continue
+        for r in gen.rank_profiles(n, rmax=4)[1:4]:
+            for ei, exps in enumerate(([100, -37], [-100], [300, -300], [-250, 250, 0])):
+                if d * max(abs(x) for x in exps) > 900 and len(exps) == 1:
+                    continue
+                base = dict(n=n, r=r, seed=500 + j2, kind='gauss', order='CFV'[(j2 + ei) % 3], defect=('none', 'dup')[ei % 2], exps=exps)
+                for inplace in (False, True):
+                    for i in range(d - 1):
+                        yield 'C04.step.contract', dict(base, side='left', i=i, inplace=inplace)
+                    for i in range(1, d):
+                        yield 'C04.step.contract', dict(base, side='right', i=i, inplace=inplace)
+    # large mode sizes
+    for j2, (n, r) in enumerate([([600, 2], [1, 3, 1]), ([2, 520, 3], [1, 2, 4, 1]), ([1, 1025, 1], [1, 1, 1, 1]), ([3, 300], [1, 4, 1])]
+                               + ([([2048, 2], [1, 2, 1]), ([2, 2, 700, 2], [1, 2, 5, 2, 1])] if big else [])):
+        for di, defect in enumerate(('none', 'dup', 'zeroslice')):
+            base = dict(n=n, r=r, seed=600 + j2, kind=('gauss', 'int')[di % 2], order='CFV'[(j2 + di) % 3], defect=defect)
+            yield from _emit(dict(base, exps=[0]), len(n))
+            if defect != 'zeroslice':
+                yield from _emit(dict(base, exps=[300, -150]), len(n), stabs=(True,))
+            for inplace in (False, True):
+                for i in range(len(n) - 1):
+                    yield 'C04.step.contract', dict(base, side='left', i=i, inplace=inplace)
+                    yield 'C04.step.contract', dict(base, side='right', i=i + 1, inplace=inplace)
+    # many modes
+    for d_, nk_, r_ in ((30, 3, 3), (64, 2, 4), (90, 2, 3)) + (((130, 2, 2), (40, 4, 5)) if big else ()):
+        for kind in ('canon', 'gauss'):
+            for s_ in range(3 if big else 1):
+                for k in (0, 1, d_ // 2, d_ - 2, d_ - 1, None):
+                    for stab, emax in ((False, 0), (False, 8), (True, 0), (True, 8), (True, 40)):
+                        yield 'C04.orthogonalize.many_modes', dict(d=d_, nk=nk_, r=r_, seed=s_, kind=kind, k=k, stab=stab, emax=emax)
+                    if k in (0, d_ // 2, None):
+                        for epat in ('up', 'down'):
+                            yield 'C04.orthogonalize.many_modes', dict(d=d_, nk=nk_, r=r_, seed=s_, kind=kind, k=k, stab=True,
+                                                                       emax=40, epat=epat)
     # seeded random part
     for _ in range(300 if big else 60):
         d = int(g.integers(2, 7 if big else 5))
